@@ -51,7 +51,7 @@ select = Fn(F, ["impl OsIpcReceiverSet", "select"], ret="r", extra_params=TS,
                "r matches Ok(v) ==> v@.len() + old(s).rx.len() == final(s).rx.len()\n"
                "&& (forall|i: int| 0 <= i < v@.len() ==> sel_view(#[trigger] v@[i]) == tagged(final(s).rx[old(s).rx.len() + i], old(self).pollfds@))", ["C06", "C12"]),
         Clause("unix.set.select/ensures.ready_members_drained",
-               "r is Ok ==> forall|j: int| 0 <= j < final(self).events.v@.len() ==> final(s).drained.contains(old(self).pollfds@[(#[trigger] final(self).events.v@[j]).token].fd)", ["C06"]),
+               "r is Ok ==> forall|j: int| 0 <= j < final(self).events.v@.len() ==> final(s).drained.contains(old(self).pollfds@[(#[trigger] final(self).events.v@[j]).token].fd)", ["C06", "C02", "C07", "C12"]),
         Clause("unix.set.select/ensures.not_empty_handed_after_eintr", "r is Ok ==> final(s).polled_nonempty", ["C06"]),
         Clause("unix.set.select/ensures.closed_member_released",
                "forall|i: int| old(s).rx.len() <= i < final(s).rx.len() && (#[trigger] final(s).rx[i]) is Closed ==> !final(s).open.contains(final(s).rx[i]->Closed_0)", ["C06", "C11", "C12"]),
@@ -70,7 +70,7 @@ select = Fn(F, ["impl OsIpcReceiverSet", "select"], ret="r", extra_params=TS,
                        "forall|j: int| it.index() <= j < evs.len() ==> self.pollfds@.contains_key((#[trigger] evs[j]).token)", ["C06"]),
                 Clause("unix.set.select/loop1.invariant.results", RES, ["C06", "C12"]),
                 Clause("unix.set.select/loop1.invariant.processed_members_drained",
-                       "forall|j: int| 0 <= j < it.index() ==> s.drained.contains(pf0[(#[trigger] evs[j]).token].fd)", ["C06"]),
+                       "forall|j: int| 0 <= j < it.index() ==> s.drained.contains(pf0[(#[trigger] evs[j]).token].fd)", ["C06", "C02", "C07", "C12"]),
                 Clause("unix.set.select/loop1.invariant.closed_member_released",
                        "forall|i: int| rx0.len() <= i < s.rx.len() && (#[trigger] s.rx[i]) is Closed ==> !s.open.contains(s.rx[i]->Closed_0)", ["C06", "C11", "C12"]),
              ]),
@@ -84,12 +84,12 @@ select = Fn(F, ["impl OsIpcReceiverSet", "select"], ret="r", extra_params=TS,
                        "forall|j: int| idx < j < evs.len() ==> self.pollfds@.contains_key((#[trigger] evs[j]).token)", ["C06"]),
                 Clause("unix.set.select/loop2.invariant.results", RES, ["C06", "C12"]),
                 Clause("unix.set.select/loop2.invariant.processed_members_drained",
-                       "forall|j: int| 0 <= j < idx ==> s.drained.contains(pf0[(#[trigger] evs[j]).token].fd)", ["C06"]),
+                       "forall|j: int| 0 <= j < idx ==> s.drained.contains(pf0[(#[trigger] evs[j]).token].fd)", ["C06", "C02", "C07", "C12"]),
                 Clause("unix.set.select/loop2.invariant.closed_member_released",
                        "forall|i: int| rx0.len() <= i < s.rx.len() && (#[trigger] s.rx[i]) is Closed ==> !s.open.contains(s.rx[i]->Closed_0)", ["C06", "C11", "C12"]),
              ],
              ensures=[
-                Clause("unix.set.select/loop2.ensures.drained_until_would_block_or_closed", "s.drained.contains(poll_entry.fd)", ["C06", "C12", "C02"])]),
+                Clause("unix.set.select/loop2.ensures.drained_until_would_block_or_closed", "s.drained.contains(poll_entry.fd)", ["C06", "C12", "C02", "C07"])]),
     },
     hints=[
         Hint("body:start", "let ghost s0 = *s;\nlet ghost pf0 = self.pollfds@;\nlet ghost rx0 = s.rx;\nproof { broadcast use axiom_token_key_model; }"),
@@ -124,13 +124,13 @@ class ValuesFor(Rule):
 set_drop = Fn(F, ["impl Drop for OsIpcReceiverSet", "drop"], extra_params=TS,
     requires=[Clause("unix.set.drop/requires.wf", "old(self).wf(*old(s))")],
     ensures=[Clause("unix.set.drop/ensures.every_member_closed_exactly_once_nothing_else",
-                    "forall|fd: RawFd| !final(s).open.contains(fd)", ["C11", "C06"])],
+                    "forall|fd: RawFd| !final(s).open.contains(fd)", ["C11", "C06", "C03"])],
     loops={0: Loop(iter_name=None, invariants=[
         Clause("unix.set.drop/loop0.invariant.remaining_members_still_open",
                "0 <= it.index() <= vals__@.len()\n"
                "&& (forall|j: int| it.index() <= j < vals__@.len() ==> s.open.contains((#[trigger] vals__@[j]).fd))\n"
                "&& (forall|fd: RawFd| #[trigger] s.open.contains(fd) ==> exists|j: int| it.index() <= j < vals__@.len() && (#[trigger] vals__@[j]).fd == fd)\n"
-               "&& (forall|i: int, j: int| 0 <= i < j < vals__@.len() ==> (#[trigger] vals__@[i]).fd != (#[trigger] vals__@[j]).fd)", ["C11"])])},
+               "&& (forall|i: int, j: int| 0 <= i < j < vals__@.len() ==> (#[trigger] vals__@[i]).fd != (#[trigger] vals__@[j]).fd)", ["C11", "C03"])])},
     hints=[
         Hint("body:start",
              "let vals__ = values_vec(&self.pollfds);\n"
@@ -164,7 +164,7 @@ UNIT = Unit(
     name="u5_set",
     prelude=["units/common.rs", "units/u5_set.rs"],
     groups=[("impl OsIpcReceiverSet", [add, select, set_drop])],
-    props=["C02", "C06", "C07", "C11", "C12"],
+    props=["C02", "C03", "C06", "C07", "C11", "C12"],
     prelude_clauses={
         "unix.set.add/requires.id_counter_not_exhausted": [],
         "unix.set.deregister/requires.registered": ["C06", "C11"],
